@@ -1,9 +1,13 @@
 #!/bin/sh
-# Regenerate harness/go.mod + go.sum from the repo under test (VERIF_REPO, default /repo).
+# Regenerate the harness go.mod + go.sum from the repo under test (VERIF_REPO, default /repo).
 # The require blocks are copied verbatim so that -mod=mod never needs the network.
+# $1 (optional): directory to write go.mod/go.sum into (default: the harness directory) -- used with
+# `go build -modfile` when a check runs against a scratch copy of the repository.
 set -e
 REPO="${VERIF_REPO:-/repo}"
 H="$(cd "$(dirname "$0")/.." && pwd)/harness"
+OUT="${1:-$H}"
+mkdir -p "$OUT"
 {
   echo "module verifharness"
   echo
@@ -13,6 +17,6 @@ H="$(cd "$(dirname "$0")/.." && pwd)/harness"
   echo
   awk '/^require \(/{p=1} p{print} /^\)/{if(p){print ""};p=0}' "$REPO/go.mod"
   echo "replace github.com/ipni/go-libipni => $REPO"
-} > "$H/go.mod.new"
-if ! cmp -s "$H/go.mod.new" "$H/go.mod" 2>/dev/null; then mv "$H/go.mod.new" "$H/go.mod"; else rm "$H/go.mod.new"; fi
-if ! cmp -s "$REPO/go.sum" "$H/go.sum" 2>/dev/null; then cp "$REPO/go.sum" "$H/go.sum"; fi
+} > "$OUT/go.mod.new.$$"
+if ! cmp -s "$OUT/go.mod.new.$$" "$OUT/go.mod" 2>/dev/null; then mv "$OUT/go.mod.new.$$" "$OUT/go.mod"; else rm "$OUT/go.mod.new.$$"; fi
+if ! cmp -s "$REPO/go.sum" "$OUT/go.sum" 2>/dev/null; then cp "$REPO/go.sum" "$OUT/go.sum"; fi
